@@ -340,6 +340,33 @@ func (m *gModel) resRest(in *gInst, stop *gEnt) {
 	}
 }
 
+// failureSources counts the instances that fail by themselves (own failing command or own guard).
+func (m *gModel) failureSources() int {
+	n := 0
+	for _, in := range m.order {
+		if m.res(in) {
+			continue
+		}
+		if in.Guard != "" {
+			n++
+			continue
+		}
+		depFail := false
+		for _, d := range in.Deps {
+			if !m.res(d) {
+				depFail = true
+			}
+		}
+		if depFail {
+			continue
+		}
+		if sp := m.stopPos(in); sp >= 0 && in.Ents[sp].Kind == gProbe {
+			n++
+		}
+	}
+	return n
+}
+
 // stopIdx is the position in Ents of the entry at which the normal phase statically stops (-1: runs through).
 func (m *gModel) stopPos(in *gInst) int {
 	for i, e := range in.Ents {
@@ -499,6 +526,7 @@ type gVerdict struct {
 }
 
 type gChecker struct {
+	cancelPossible bool
 	m       *gModel
 	evs     []pEv
 	out     []gVerdict
@@ -516,6 +544,31 @@ func (c *gChecker) add(prop, sig, format string, a ...any) {
 	c.out = append(c.out, gVerdict{prop, sig, fmt.Sprintf(format, a...)})
 }
 
+// sharedTag names the facts about a deduplicated instance that matter for a finding's identity.
+func sharedTag(m *gModel, in *gInst) string {
+	s := effRun(m.p, in.T)
+	if in.T.VUse == "env" {
+		s += ",var_only_in_env"
+	}
+	return s
+}
+
+// culprit walks from an instance that is not (yet) complete to the deepest sub-instance responsible.
+func (c *gChecker) culprit(in *gInst) *gInst {
+	m := c.m
+	for _, d := range in.Deps {
+		if m.okAt(d) >= inf {
+			return c.culprit(d)
+		}
+	}
+	for _, e := range in.Ents {
+		if e.Callee != nil && m.entDone(in, e) >= inf {
+			return c.culprit(e.Callee)
+		}
+	}
+	return in
+}
+
 func depSig(m *gModel, d *gInst) string {
 	kind := "plain"
 	if d.Shared {
@@ -524,6 +577,12 @@ func depSig(m *gModel, d *gInst) string {
 	st := "incomplete"
 	if !m.res(d) {
 		st = "failed_" + d.resKind
+	}
+	cu := (&gChecker{m: m}).culprit(d)
+	if cu != d && cu.Shared {
+		st += "|culprit_shared:" + sharedTag(m, cu)
+	} else if d.Shared {
+		st += "|" + sharedTag(m, d)
 	}
 	return kind + "_dep_" + st
 }
@@ -596,7 +655,7 @@ func (c *gChecker) entryEnabled(in *gInst, e *gEnt, t int, why string) bool {
 					}
 					c.add("C03", "continued_after_failure|"+kind, "%s: entry %s of %s ran at %d although earlier entry %s fails", why, e.Lab, in.P, t, x.Lab)
 				} else if x.Kind == gCall && x.Callee.Shared {
-					c.add("C06", "shared_callee_not_finished", "%s: entry %s of %s ran at %d before shared callee %s (entry %s) had finished", why, e.Lab, in.P, t, x.Callee.P, x.Lab)
+					c.add("C06", "shared_callee_not_finished|"+sharedTag(m, c.culprit(x.Callee)), "%s: entry %s of %s ran at %d before shared callee %s (entry %s) had finished", why, e.Lab, in.P, t, x.Callee.P, x.Lab)
 				} else {
 					c.add("C02", "entry_before_previous_done", "%s: entry %s of %s ran at %d before earlier entry %s had finished (done=%s)", why, e.Lab, in.P, t, x.Lab, seqStr(m.entDone(in, x)))
 				}
@@ -655,6 +714,9 @@ func (c *gChecker) entStarted(in *gInst, e *gEnt) int {
 			return s
 		}
 		return inf
+	}
+	if e.Callee.Shared {
+		return inf // whoever ran the shared execution, it says nothing about this entry
 	}
 	return c.firstEvent(e.Callee)
 }
@@ -784,6 +846,7 @@ func (m *gModel) check(evs []pEv, conc int, finished bool, errNil bool, errClass
 			cancelFree = false // some task returns an error: siblings may be cut short (S without E)
 		}
 	}
+	c.cancelPossible = cancelled || m.failureSources() >= 2
 	open := 0
 	for _, ev := range evs {
 		in, ok := m.byP[ev.P]
@@ -903,8 +966,8 @@ func (m *gModel) check(evs []pEv, conc int, finished bool, errNil bool, errClass
 				what := c.firstMissing(r)
 				sig := "work_missing"
 				prop := "C07"
-				if strings.Contains(what, "shared:") {
-					prop, sig = "C06", "shared_execution_missing"
+				if cu := c.culprit(r); cu.Shared {
+					prop, sig = "C06", "shared_execution_missing|"+sharedTag(m, cu)
 				}
 				c.add(prop, sig, "run succeeded but required work is missing: %s", what)
 			}
@@ -1006,6 +1069,9 @@ func (c *gChecker) checkExitCode(in *gInst, e *gEnt, got string, t int) {
 		return
 	}
 	want := map[string]bool{}
+	if c.cancelPossible {
+		want[""] = true // the stopping command may have been cut short by a cancellation instead of exiting
+	}
 	if st.Kind == gProbe {
 		want[strconv.Itoa(st.Fail)] = true
 	} else if st.Callee.resKind == "exit" {
